@@ -193,7 +193,7 @@ for _ops in ([0, NF + 0, 1, 2], [3, NF + 3, 4], [0, 1, 2, 5], [6, NF + 6, 7, 0])
         pass
 
 _HIST = '''
-@obligation(pre="o1 == {lo} and 0 <= o2 < NF and 0 <= k <= 2 and o2 != o1", witnesses=(0,), timeout=300)
+@obligation(pre="o1 == {lo} and 0 <= o2 < NF and 0 <= k <= 2 and o2 != o1", witnesses=(0,), timeout=480)
 def body_history_{lo}(o1: int, o2: int, d1: bool, d2: bool, r2: bool, r3: bool, k: int, i: int, s: str) -> int:
     """histories: use type {lo} [drop it] use type o2 [drop it] use {lo} again, use o2 again -- over 10 type factories, with an allocator that may recycle the ids of dead types: every memoised lookup behaves like a fresh converter"""
     o1, o2 = conc(o1, NF), conc(o2, NF)
@@ -286,7 +286,7 @@ def value_for(ti, x):
         return {'a': x}
 
 
-@obligation(pre="0 <= t1 <= 5 and 0 <= t2 <= 5 and (t2 == t1 + 1 or (t1 == 5 and t2 == 0)) and t3 == t1 and 0 <= c1 <= 6 and c2 == c1 and 0 <= c3 <= 6 and c3 != c1", witnesses=(0,), timeout=300)
+@obligation(pre="0 <= t1 <= 5 and 0 <= t2 <= 5 and (t2 == t1 + 1 or (t1 == 5 and t2 == 0)) and t3 == t1 and 0 <= c1 <= 6 and c2 == c1 and 0 <= c3 <= 6 and c3 != c1", witnesses=(0,), timeout=480)
 def body_handler_history(t1: int, c1: int, t2: int, c2: int, t3: int, c3: int, x: int) -> int:
     """from_data(value, type, custom=handlers) depends on those three only: any order of (type, handler form) triples, incl. mapping-form handlers that are rebuilt per call"""
     t1, t2, t3, c1, c2, c3 = conc(t1, 6), conc(t2, 6), conc(t3, 6), conc(c1, 7), conc(c2, 7), conc(c3, 7)
@@ -328,7 +328,7 @@ SUBVAL = (5, 's', 5, 5, None, [5], [5])
 SUBEXP = (5, 's', 5, 5.0, None, [5], [5.0])
 
 
-@obligation(pre="0 <= a <= 6 and 0 <= b <= 6 and c == b", witnesses=(0,), timeout=300)
+@obligation(pre="0 <= a <= 6 and 0 <= b <= 6 and c == b", witnesses=(0,), timeout=480)
 def body_subscription_history(a: int, b: int, c: int) -> int:
     """G[X](v) converts v as X whatever subscriptions of G were made before (G[Union[int, float]] vs G[Union[float, int]])"""
     a, b, c = conc(a, 7), conc(b, 7), conc(c, 7)
@@ -483,7 +483,7 @@ for _ms in (0, 1, 2):
                          args=', '.join(f's{i}' for i in range(1, 9))))
 
 
-@obligation(pre="1 <= ms <= 2 and 0 <= a <= 2 and 0 <= b <= 2 and 0 <= c <= 2 and 0 <= d <= 2 and e == 0", witnesses=(0,), timeout=300)
+@obligation(pre="1 <= ms <= 2 and 0 <= a <= 2 and 0 <= b <= 2 and 0 <= c <= 2 and 0 <= d <= 2 and e == 0", witnesses=(0,), timeout=480)
 def body_lru(ms: int, a: int, b: int, c: int, d: int, e: int) -> int:
     """sequential LRU histories of 5 calls over 3 keys: results right, inner function called exactly as a reference LRU would"""
     ms, a, b, c, d, e = conc(ms, 3), conc(a, 3), conc(b, 3), conc(c, 3), conc(d, 3), conc(e, 3)
